@@ -46,7 +46,12 @@ Definition step_post (l : lexer) (r : Z * option sl * lexer) : Prop :=
   (intag l = false -> ty <> AttributeT /\ ty <> StartTagCloseT /\ ty <> StartTagVoidT) /\
   (ty <> ErrorT -> (intag l' = true <-> (ty = StartTagT \/ ty = AttributeT))) /\
   (lerr l = true -> lerr l' = true) /\
-  (lerr l' = true -> lerr l = true \/ lpos (lz l) < lpos (lz l')).
+  (lerr l' = true -> lerr l = true \/ lpos (lz l) < lpos (lz l')) /\
+  (ty <> ErrorT -> lerr l' = lerr l).
+
+Lemma lerr_tail_same (a b : bool) (ty : Z) (p : Prop) : a = b ->
+  (b = true -> a = true) /\ (a = true -> b = true \/ p) /\ (ty <> ErrorT -> a = b).
+Proof. intros ->. tauto. Qed.
 
 (* whitespace loop: everything moved over is whitespace *)
 Lemma ws_loop_gap z z' : ws_loop z = Ok z' ->
@@ -165,7 +170,7 @@ Proof.
     intros ->. unfold plain_ty in Hty. destruct Hty as [?|[?|[?|?]]]; discriminate. }
   split; [rewrite Hit; discriminate|].
   split; [intros _; unfold plain_ty in Hty; repeat split; intros ->; destruct Hty as [?|[?|[?|?]]]; discriminate|].
-  split; [|subst er; split; [tauto|intros _; right; exact Hlt]].
+  split; [|subst er; split; [tauto|split; [intros _; right; exact Hlt|intros _; reflexivity]]].
   intros _. split; [discriminate|]. unfold plain_ty in Hty. intros [-> | -> ]; destruct Hty as [?|[?|[?|?]]]; discriminate.
 Qed.
 
@@ -187,7 +192,7 @@ Proof.
     { exists (mkSl (lpos (lz l)) 0). cbn [so sn]. rewrite lower_view_empty by lia.
       split; [exact A1|]. split; [lia|]. split; [lia|]. split; [lia|]. left. reflexivity. }
     split; [lia|]. split; [split; [reflexivity|left; split; [exact Hend|apply (ws_loop_gap _ _ Ez1)]]|].
-    split; [tauto|]. split; [rewrite Hit; discriminate|]. split; [intros H; exfalso; apply H; reflexivity|tauto]. }
+    split; [tauto|]. split; [rewrite Hit; discriminate|]. split; [intros H; exfalso; apply H; reflexivity|apply lerr_tail_same; reflexivity]. }
   (* not at the end: the selection was empty *)
   assert (Hclean : lstart (lz l) = lpos (lz l)).
   { destruct Hcl as [?|[_ Hcl]]; [assumption|]. pose proof (eof0_false z1 cw Hw1 Hpw Ee).
@@ -224,7 +229,7 @@ Proof.
     { split; [discriminate|]. split; [lia|]. split; [lia|]. split; [exact T6|]. split; [exact T7|].
       split; [intros i Hi; lia|]. split; [intros; lia|]. split; [rewrite T1; exact T2|]. intros _. exact T3. }
     split; [tauto|]. split; [rewrite Hit; discriminate|].
-    split; [intros _; rewrite T10, Hit; tauto|]. rewrite T12. tauto.
+    split; [intros _; rewrite T10, Hit; tauto|]. apply lerr_tail_same. exact T12.
   - (* '>' or '/>' *)
     specialize (Hb2 eq_refl).
     set (n := if cw =? 47 then 2 else 1).
@@ -249,7 +254,7 @@ Proof.
       split; [intros i Hi; apply (ws_loop_gap _ _ Ez1); lia|].
       split; [intros _; destruct (cw =? 47); tauto|]. split; [exact I|]. destruct (cw =? 47); discriminate. }
     split; [intros _; destruct (cw =? 47); tauto|]. split; [rewrite Hit; discriminate|].
-    split; [|tauto]. intros _. split; [discriminate|]. destruct (cw =? 47); intros [?|?]; discriminate.
+    split; [|apply lerr_tail_same; reflexivity]. intros _. split; [discriminate|]. destruct (cw =? 47); intros [?|?]; discriminate.
 Qed.
 
 (* ---- Next outside a tag ---------------------------------------------------------------------------------- *)
@@ -320,7 +325,7 @@ Proof.
       { split; [discriminate|]. split; [lia|]. split; [lia|]. split; [exact B4|]. split; [exact B5|].
         split; [intros i Hi; lia|]. split; [intros; lia|]. split; [exact S2|]. discriminate. }
       split; [rewrite Hit; discriminate|]. split; [intros _; repeat split; discriminate|].
-      split; [|tauto]. intros _. rewrite Hit. split; [discriminate|]. intros [?|?]; discriminate.
+      split; [|apply lerr_tail_same; reflexivity]. intros _. rewrite Hit. split; [discriminate|]. intros [?|?]; discriminate.
   - (* start tag *)
     destruct Hd as (Hm & c1 & Hp1 & Hl1).
     assert (z = lz l) by (eapply adv_same; eauto). subst z.
@@ -356,7 +361,9 @@ Proof.
       - tauto.
       - split; [discriminate|]. destruct Hty as [-> | [-> | ->]]; intros [?|?]; discriminate.
       - exfalso. apply Hne. reflexivity. }
-    split; [exact Terr|]. intros _. right. lia.
+    split; [exact Terr|]. split; [intros _; right; lia|].
+    intros Hne. destruct T11 as [(_ & _ & _ & _ & E)|[(_ & _ & _ & E & _)|(E & _)]]; [exact E| |congruence].
+    destruct (lerr l) eqn:El; [|congruence]. rewrite (Terr eq_refl) in E. discriminate.
   - (* <! markup *)
     destruct Hd as (Hm & Hp1).
     assert (z = lz l) by (eapply adv_same; eauto). subst z.
@@ -394,7 +401,7 @@ Proof.
       split; [reflexivity|]. split; [lia|]. split; [lia|]. split; [lia|]. left. reflexivity. }
     split; [lia|]. split; [split; [reflexivity|left; split; [exact Hend|intros i Hi; lia]]|].
     split; [rewrite Hit; discriminate|]. split; [intros _; repeat split; discriminate|].
-    split; [intros H; exfalso; apply H; reflexivity|tauto].
+    split; [intros H; exfalso; apply H; reflexivity|apply lerr_tail_same; reflexivity].
 Qed.
 
 (* ---- Next --------------------------------------------------------------------------------------------------- *)
